@@ -584,6 +584,24 @@ class RecSession(Session):
         return self._schema
 
 
+class RawSession(RecSession):
+    """Records what reaches `handle_query` (the application boundary of the Connection layer) without parsing it."""
+
+    def __init__(self, result=None):
+        super().__init__()
+        self.result = result
+
+    async def handle_query(self, sql, attrs):
+        self.log.append(("hq", sql, dict(attrs), self.username, self.database))
+        r = self.result
+        if callable(r):
+            r = r(self, sql, attrs)
+            if asyncio.iscoroutine(r):
+                r = await r
+            return r
+        return r if r is not None else ([(1,)], ["a"])
+
+
 class Peer:
     """One client connection to a real server, over MemT."""
 
